@@ -11,6 +11,29 @@ PROPS = {
                 "ops match/find/group1/remove-all/split-after/find-all; non-trivial = the pattern matched",
         "kernel_sample": {"quick": 30, "thorough": 100},
     },
+    "C01": {
+        "n": {"quick": 220, "thorough": 12000},
+        "cone": ["Bytes", "BytesLemmas", "Regex", "Generated", "Channel", "Session", "SessionLemmas", "Replay"],
+        "rx": True,
+        "kernel_sample": {"quick": 6, "thorough": 20}, "kernel_maxlen": 2500,
+        "rule": "generic.Driver SendCommands / SendCommand over the simulated transport and a CLI echo device: prompts drawn from the default "
+                "pattern's language, 1-8 commands, outputs with blank lines, trailing spaces, CRLF/LF, SGR/cursor escape atoms, multi-byte "
+                "UTF-8 and long lines; echo verbatim / wrapped with filler; read sizes and per-read segmentation lists (1 byte .. whole burst); "
+                "read delays; search depths 120..10000; strip/keep prompt; exact/fuzzy. The transport logs every read size and every write with "
+                "the device's reaction; the model replays that schedule and must reproduce every result and every write. Non-trivial = more "
+                "than one command; hypotheses_true_by_model counts the cases on which the model evaluated session_ok (the theorem's "
+                "hypothesis) to true.",
+        "level_text": "Theorems C01_cli_alignment / C01_progress / C01_schedule_independent hold for every schedule (every cut of the device "
+                      "stream into reads, every interleaving of reader and operation), every command list and every device script meeting the "
+                      "property's preconditions (session_ok), proved by an invariant over the interpreter of the transcribed programs "
+                      "(phase lemma + session induction, unbounded). The interpreter is tied to channel/*.go and driver/generic by replaying "
+                      "the logged schedule of each real run and comparing all results and writes; the theorem's hypotheses are evaluated on "
+                      "the generated cases by the regex engine.",
+        "level_note": "Partial in one respect: escape-sequence removal is excluded from the theorem (hypothesis: no ESC byte) and covered by the "
+                      "correspondence only. Trusted: kernel, generated prompt/ANSI regex ASTs + RX check, extraction, harness device and "
+                      "transport log.",
+        "assumptions": ["device emits in reaction to writes only (causality)", "cuts never fall inside an escape sequence (harness transport delivers escape atoms whole)"],
+    },
     "C02": {
         "n": {"quick": 2500, "thorough": 150000},
         "cone": ["Bytes", "Regex", "Generated", "Netconf", "NetconfLemmas"],
@@ -53,6 +76,24 @@ PROPS = {
                       "bound) compared with the model and by concurrent stress under -race with the property as oracle.",
         "level_note": "Partial in one respect: that sync.RWMutex and a 1-slot buffered channel implement the modelled lock/mailbox semantics is the "
                       "Go runtime's; the concurrent runs observe the real thing but cannot force its interleavings.",
+    },
+    "C03": {
+        "n": {"quick": 250, "thorough": 6000},
+        "cone": ["Bytes", "BytesLemmas", "Regex", "Generated", "Netconf", "NetconfLemmas", "NcSession"],
+        "rx": True,
+        "rule": "netconf.Driver over the simulated transport against a NETCONF server model whose request parser is a strict RFC 6242 / "
+                "end-of-message decoder: sessions of 1-12 requests over all operations (get, get-config, edit-config, copy/delete-config, "
+                "lock/unlock, validate, commit variants, discard, raw rpc) with multi-byte / attribute / namespace / empty-element arguments, "
+                "x {1.0,1.1} x {force self-closing} x {exclude header} x {echoing transport} x read segmentations; compared with the model: "
+                "every byte written, Input, FramedInput, result; non-trivial = more than one request",
+        "level_text": "Theorems: the frame built by serialize is what the strict RFC 6242 decoder (independent definition) inverts, for every "
+                      "message and for whole sessions with the two returns (exact byte counts, end-of-chunks marker), 1.0 framing splits at "
+                      "the marker, FramedInput = frame(Input); request templates carry the caller's arguments (NcSessionLemmas). The hand-written "
+                      "XML templates are tied to encoding/xml by byte-for-byte comparison of every request the real driver writes.",
+        "level_note": "Trusted: kernel; generated constants and the emptyTags regex AST; extraction; harness server model. encoding/xml is an "
+                      "oracle whose output the templates are compared with on every case. Force-self-closing is modelled with the regex engine "
+                      "and compared differentially; no general theorem about it yet.",
+        "assumptions": ["argument strings are valid UTF-8 without XML-invalid control characters (encoding/xml would substitute U+FFFD)"],
     },
     "C13": {
         "n": {"quick": 400, "thorough": 20000},
